@@ -134,6 +134,49 @@ func genC08(c *lp.Ctx) {
 	}
 }
 
+// genC08deep: one order violation deep inside a LONG list (positions around powers of two and chunk
+// sizes a "faster" order check might use, the last pair, random positions).
+func genC08deep(c *lp.Ctx) {
+	sizes := []int{3000, 70000}
+	if !c.Quick() {
+		sizes = []int{3000, 5000, 40000, 70000, 140000}
+	}
+	for _, n := range sizes {
+		base := make([]string, n)
+		for i := range base {
+			base[i] = fmt.Sprintf("k%07d", i)
+		}
+		pos := []int{n - 2, n / 2, 1023, 1024, 4095, 4096, c.Rng.Intn(n - 1)}
+		if n > 65537 {
+			pos = append(pos, 65534, 65535, 65536)
+		}
+		for _, i := range pos[:c.Pick(4, len(pos))] {
+			if i < 0 || i+1 >= n {
+				continue
+			}
+			keys := append([]string{}, base...)
+			kind := c.Rng.Intn(3)
+			switch kind {
+			case 0:
+				keys[i+1] = keys[i]
+			case 1:
+				keys[i], keys[i+1] = keys[i+1], keys[i]
+			default: // a key from far ahead: in order with respect to its left neighbour only
+				keys[i] = base[min(n-1, i+n/3)] + "x"
+			}
+			cs := NewCase(c.Rng, gen.KeySet{Keys: keys, Class: fmt.Sprintf("deep-order-violation-%d", kind)}, "", "none")
+			c.Case(fmt.Sprintf("deep|%d|%d|%d", n, i, kind), true)
+			c.Hit(fmt.Sprintf("deep-order-violation:n=%d", n))
+			line := cs.Line()
+			if got := c.Do(line); got != "err:out-of-order" {
+				c.Violate(lp.Violation{What: fmt.Sprintf("order violation at index %d of %d keys must be rejected with ErrKeyOutOfOrder", i, n),
+					Script: []string{fmt.Sprintf("trie.new %s none k0000000 .. k%07d with keys[%d], keys[%d] = %q, %q", cs.Flags, n-1, i, i+1, keys[i], keys[i+1])},
+					Expected: "err:out-of-order", Got: got})
+			}
+		}
+	}
+}
+
 // genC08accepted: "no silent loss" on ordinary inputs — every generated valid list is either refused with
 // an error or yields a trie that finds every key it was built from (the same clause as C01, asked here
 // of the builder's accept/refuse decision over all shape classes).
@@ -168,5 +211,6 @@ func genC08accepted(c *lp.Ctx) {
 
 func init() {
 	lp.RegisterGen("C08", genC08accepted)
+	lp.RegisterGen("C08", genC08deep)
 	lp.RegisterGen("C08", genC08)
 }
